@@ -121,7 +121,7 @@ class PointEngine(Engine):
             'operation ALL systems of the history are compared bit-for-bit with their snapshots. One operation in twenty '
             'changes the working length unit (angstrom, nm, um, cm, m) between insertions: stored numbers keep their value, '
             'the documented default tolerance of 0.01 angstrom becomes another number, and every decision of the model uses it. '
-            'old_id must be unique in every result. Non-trivial run: a '
+            'Indices outside -natoms..natoms-1 must be refused; the scale flag is a Python or a numpy boolean; results are scribbled on in place (values, cell, periodicity). old_id must be unique in every result. Non-trivial run: a '
             'refused/ill-formed call or a scribble fired, or >= 2 successful insertions. distinct = distinct (previous '
             'kind, kind, selection, via, outcome, history depth, has-props, pbc pattern) signatures.')
     tolerances = {'copied cells': 'bit-exact', 'requested positions / dumbbell shifts given box-relative': '1e-9 * cell size',
